@@ -200,18 +200,27 @@ def run_quiet(prop, scenario):
             res.discarded = True
             res.obs.append('numeric-overflow')
             return res
-        raise
+        if os.environ.get('VERIF_RAISE_HARNESS_EXC'):
+            raise
+        # An exception outside a real API call: the oracle code tripped over what the library returned (a result of the wrong
+        # length or shape, None instead of a list ...). That is reported like any other violation (it has to reproduce in the
+        # fresh-interpreter replay); on the unchanged tree it never happens, and if it did it would be a defect of the harness
+        # that shows up as loudly as a false alarm would.
+        res = Result()
+        tb = traceback.extract_tb(e.__traceback__)
+        res.violate('malformed-result', type=type(e).__name__, msg=str(e)[:200],
+                    where=['%s:%d %s' % (os.path.basename(f.filename), f.lineno, f.name) for f in tb[-3:]])
+        res.obs.append(['malformed-result', type(e).__name__])
+        return res
     finally:
         signal.setitimer(signal.ITIMER_REAL, 0)
         signal.signal(signal.SIGALRM, old)
         restore_env()
 
 
-def one_run(prop, seed, k, tier):
-    rng = prng.rng_for(seed, prop.ID, k)
-    scenario = prop.gen(rng, tier)
+def _draw_env(prop, rng, scenario):
     # run environment (drawn after the scenario, so scenarios are unchanged by it): decorated specification texts, shrunk
-    # tuning constants - see sim/monitors.py
+    # tuning constants ... - see sim/monitors.py
     if isinstance(scenario, dict):
         env = {}
         if rng.random() < 0.15:
@@ -228,6 +237,12 @@ def one_run(prop, seed, k, tier):
             env['cohost'] = rng.randrange(1 << 30)
         if env:
             scenario['_env'] = env
+
+
+def one_run(prop, seed, k, tier):
+    rng = prng.rng_for(seed, prop.ID, k)
+    scenario = prop.gen(rng, tier)
+    _draw_env(prop, rng, scenario)
     res = run_quiet(prop, scenario)
     return scenario, res
 
@@ -373,6 +388,13 @@ def write_replay(prop, seed, k, clause, scenario, detail, shrunk_from=None):
 
 def replay_file(prop, path, verbose=True):
     rec = json.load(open(path))
+    # a replay may carry a HISTORY: scenarios the same process executed before (state that outlives the monitor objects - a
+    # process-wide cache in the code under test - made the last scenario fail); they are re-executed first, in order
+    for earlier in rec.get('history') or []:
+        try:
+            run_quiet(prop, earlier)
+        except Exception:
+            pass
     res = run_quiet(prop, rec['scenario'])
     want = rec.get('clause')
     got = res.clauses()
@@ -393,6 +415,56 @@ def fresh_replay_fails(prop, path):
     p = subprocess.run([os.path.join(VERIF, 'check'), prop.ID, '--replay', path, '--quiet'],
                        env=env, capture_output=True, text=True, timeout=300, cwd=VERIF)
     return p.returncode == 1 and ('VIOLATION property=%s' % prop.ID) in p.stdout
+
+
+def _history_replay(prop, seed, k, clause, scenario, detail, hist_ks, tier, max_fresh=24):
+    """the scenario of run k fails in the worker but not alone in a fresh interpreter: try it after the scenarios the worker had
+    executed before it (runs hist_ks, same order), then shrink that history by halving. Returns the replay path or None."""
+    hist = []
+    for kk in hist_ks:
+        try:
+            hist.append(one_run_scenario(prop, seed, kk, tier))
+        except Exception:
+            pass
+
+    def attempt(h):
+        d = os.environ.get('VERIF_REPLAY_DIR') or os.path.join(VERIF, 'replays')
+        os.makedirs(d, exist_ok=True)
+        tag = hashlib.sha256(clause.encode()).hexdigest()[:6]
+        path = os.path.join(d, '%s-%d-%d-%s-history.json' % (prop.ID, seed, k, tag))
+        rec = {'property': prop.ID, 'verif_seed': seed, 'run': k, 'clause': clause, 'scenario': scenario, 'history': h,
+               'detail': detail, 'note': 'the scenario fails only after the history was executed in the same process'}
+        with open(path, 'w') as f:
+            f.write(json.dumps(rec, indent=1, sort_keys=True, default=_jdefault))
+        return path if fresh_replay_fails(prop, path) else None
+    n_fresh = 1
+    if not attempt(hist):
+        return None
+    cur = hist
+    chunk = max(1, len(cur) // 2)
+    while chunk >= 1 and n_fresh < max_fresh and len(cur) > 1:
+        i = 0
+        progressed = False
+        while i < len(cur) and n_fresh < max_fresh:
+            cand = cur[:i] + cur[i + chunk:]
+            n_fresh += 1
+            if attempt(cand):
+                cur = cand
+                progressed = True
+            else:
+                i += chunk
+        if chunk == 1 and not progressed:
+            break
+        chunk = max(1, chunk // 2) if chunk > 1 else (1 if progressed else 0)
+    return attempt(cur)
+
+
+def one_run_scenario(prop, seed, k, tier):
+    """the scenario (with its run environment) of run k, without executing it"""
+    rng = prng.rng_for(seed, prop.ID, k)
+    scenario = prop.gen(rng, tier)
+    _draw_env(prop, rng, scenario)
+    return scenario
 
 
 # ---------------------------------------------------------------------------------------------------
@@ -508,8 +580,18 @@ def run_check(prop_name, tier, replay=None, digests=None, quiet=False, runs_over
                           'the same process) detail=%s' % (clause, k, jdump(detail0)[:700]))
                     reported.append(path0)
                 else:
-                    unconfirmed += 1
-                    print('HARNESS-ERROR property=%s replay %s did not reproduce in a fresh interpreter' % (prop.ID, path))
+                    # last resort: the failure needs what the worker process had executed before (state kept across monitor
+                    # objects AND across scenarios). Replay the worker's history in a fresh interpreter and minimise it.
+                    hist_ks = [kk for kk in range(k % W, k, W)]
+                    path_h = _history_replay(prop, seed, k, clause, scenario, detail0, hist_ks, tier)
+                    if path_h:
+                        print('VIOLATION property=%s replay=%s' % (prop.ID, path_h))
+                        print('  clause=%s run=%d (fails only after earlier scenarios ran in the same process: state outlives the '
+                              'monitor objects; the replay file carries the minimised history) detail=%s' % (clause, k, jdump(detail0)[:600]))
+                        reported.append(path_h)
+                    else:
+                        unconfirmed += 1
+                        print('HARNESS-ERROR property=%s replay %s did not reproduce in a fresh interpreter' % (prop.ID, path))
         if len(reported) >= 5:
             break
 
